@@ -27,7 +27,7 @@ type C04Scenario struct {
 
 func (C04) ID() string { return "C04" }
 func (C04) Rule() string {
-	return "layer histories as operation batches on a stateful store: 1-5 real layers + 0-3 empty history entries in any arrangement (valid, missing or inconsistent histories) over a universe of <=10 paths of depth <=4 on the alphabet {a,b,c,x,y}; per layer 0-6 operations: regular file (content tagged with layer and path), directory, symlink (absolute or relative target inside the root), whiteout of a file or of a directory at any height above existing files, opaque marker, non-directory replacing a directory and vice versa, whiteout + re-create in one layer; explicit parent-directory entries for all / some / no entries; names bare, './'-prefixed or absolute, directories with or without trailing slash; stream order parent-first or a seeded permutation; stream chunking seeded; requirer all / explicit path list / none; 1 in 8 scenarios with MaxFileBytes in {8,10,12} so that some files are skipped by the loader, 1 in 12 symlinks with a target outside the root (also skipped): skipped entries are modelled as absent from their layer; names that are string prefixes of sibling names (a / ab / a-) and names starting with the characters of the whiteout prefix (hosts, h, w, .w); loaded through FromV1Image (simulated v1.Image) or FromTarball (real docker-save tarball). Oracle: RefOverlay(D) - OCI overlay reference model with named deviations; every chain-layer view is compared by recursive ReadDir walk AND by direct Stat/Open of every universe path and every whiteout spelling of it; UnpackSquashed into the sandbox vs the final view; requirer law against the fully loaded views. evaluation = one scenario (1-2 image loads + 1 squashed unpack, all views); non-trivial = at least one deletion (whiteout, opaque marker, or type change of an existing path) takes effect on an existing entry; distinct = distinct scenario JSON"
+	return "layer histories as operation batches on a stateful store: 1-5 real layers + 0-3 empty history entries in any arrangement (valid, missing or inconsistent histories) over a universe of <=10 paths of depth <=4 on the alphabet {a,b,c,x,y}; per layer 0-6 operations: regular file (content tagged with layer and path), directory, symlink (absolute or relative target inside the root, including the root itself as '/' or as exactly as many '..' as the link is deep), whiteout of a file or of a directory at any height above existing files, opaque marker, non-directory replacing a directory and vice versa, whiteout + re-create in one layer; explicit parent-directory entries for all / some / no entries; names bare, './'-prefixed or absolute, directories with or without trailing slash; stream order parent-first or a seeded permutation; stream chunking seeded; requirer all / explicit path list / none; 1 in 8 scenarios with MaxFileBytes in {8,10,12} so that some files are skipped by the loader, 1 in 12 symlinks with a target outside the root (also skipped): skipped entries are modelled as absent from their layer; names that are string prefixes of sibling names (a / ab / a-) and names starting with the characters of the whiteout prefix (hosts, h, w, .w); loaded through FromV1Image (simulated v1.Image) or FromTarball (real docker-save tarball). Oracle: RefOverlay(D) - OCI overlay reference model with named deviations; every chain-layer view is compared by recursive ReadDir walk AND by direct Stat/Open of every universe path and every whiteout spelling of it; UnpackSquashed into the sandbox vs the final view; requirer law against the fully loaded views. evaluation = one scenario (1-2 image loads + 1 squashed unpack, all views); non-trivial = at least one deletion (whiteout, opaque marker, or type change of an existing path) takes effect on an existing entry; distinct = distinct scenario JSON"
 }
 
 // names include string prefixes of each other (a / ab / a-) - siblings are told apart by path
@@ -177,6 +177,12 @@ func (C04) Gen(rt *rapid.T, tier string) any {
 				e := Entry{Kind: "l", Path: p, Perm: 0o777, Target: "/" + t}
 				if rapid.Bool().Draw(rt, "relative") {
 					e.Target = relTarget(p, t)
+				}
+				switch rapid.IntRange(0, 9).Draw(rt, "to_root") {
+				case 0: // the root itself, absolute
+					e.Target = "/"
+				case 1: // the root itself, exactly as many ".." as the link is deep
+					e.Target = relTarget(p, "")
 				}
 				if rapid.IntRange(0, 11).Draw(rt, "escaping") == 0 {
 					// leaves the root: the loader skips such an entry
@@ -616,6 +622,8 @@ func checkRequirerLaw(out *sim.Outcome, sc *C04Scenario, full, restr []*ViewObs,
 			case mayDrop(p):
 			case ownType(p) == "d" && i == last && depth(p) >= 2 && !hasKid(p):
 				out.Violate("requirer-law:empty-dir-pruned", "requirer-law:empty-dir-pruned", "final view: directory %s is absent once the requirer dropped its non-required contents (only non-required FILES may be absent); %s", p, ctxs)
+			case !orphanBelow(f, explained[i], p) && tombBelow(explained[i], p):
+				out.Violate("requirer-law:required-lost-with-whiteout-child", "requirer-law:required-lost-with-whiteout-child", "view %d: %s (%s) is required (or the target of a required symlink) but is gone with the requirer; the tree keeps a whiteout node below it (it sits under a non-directory that replaced a directory, and fully loaded a symlink pointing at it protects it); with the requirer that node is removed and takes %s along; %s", i, p, f.Walk[p], p, ctxs)
 			case orphanBelow(f, explained[i], p):
 				out.Violate("requirer-law:required-lost-with-lookup-only-child", "requirer-law:required-lost-with-lookup-only-child", "view %d: %s (%s) is required (or the target of a required symlink) but is gone with the requirer; fully loaded, entries that the overlay should have hidden are still found by direct lookup below it, and dropping those took %s along; %s", i, p, f.Walk[p], p, ctxs)
 			default:
@@ -671,7 +679,7 @@ func checkRequirerLaw(out *sim.Outcome, sc *C04Scenario, full, restr []*ViewObs,
 					if _, kept := r.Walk[t]; !kept && tn.Type == "d" && i == last && depth(t) >= 2 && !hasKid(t) {
 						continue // a link to a directory that was pruned when it became empty (reported from the walk)
 					}
-					if _, kept := r.Walk[t]; !kept && orphanBelow(f, explained[i], t) {
+					if _, kept := r.Walk[t]; !kept && (orphanBelow(f, explained[i], t) || tombBelow(explained[i], t)) {
 						continue // a link to an entry lost together with its lookup-only child (reported from the walk)
 					}
 				}
@@ -679,7 +687,7 @@ func checkRequirerLaw(out *sim.Outcome, sc *C04Scenario, full, restr []*ViewObs,
 			if ownType(p) == "d" && i == last && depth(p) >= 2 && !hasKid(p) {
 				continue // reported from the walk
 			}
-			if orphanBelow(f, explained[i], p) {
+			if orphanBelow(f, explained[i], p) || tombBelow(explained[i], p) {
 				continue // reported from the walk
 			}
 			out.Violate("requirer-law", "requirer-law:required-missing", "view %d: lookup of %s fails with the requirer, fully loaded it is %s; %s", i, p, fn, ctxs)
@@ -697,6 +705,16 @@ func orphanBelow(f *ViewObs, mv *ModelView, p string) bool {
 	}
 	for q := range mv.Look { // e.g. a dangling symlink, which no lookup can see
 		if _, listed := mv.Walk[q]; isUnder(q, p) && !listed {
+			return true
+		}
+	}
+	return false
+}
+
+// tombBelow: the model's tree for the view keeps a whiteout node below p.
+func tombBelow(mv *ModelView, p string) bool {
+	for t := range mv.Tombs {
+		if isUnder(t, p) {
 			return true
 		}
 	}
